@@ -523,6 +523,22 @@ def shard(seed, idx, n, tier):
         gpg_verify_case(rng, res)
     run_record_cases(rng, res, n)
     sign_match_cases(rng, res, n)
+    # the same families with the front end as a child process: the console-script wrapper of [project.scripts]
+    # (`sys.exit(main())`) and `python -m in_toto.<tool>` - the exit status of a process is what C18 is about, and a
+    # status that main() returns instead of exiting with, or an exception that escapes, only shows there
+    k = 1 if tier == "quick" else max(2, n // 6)
+    for spelling in (("script", "module") if (tier != "quick" or idx % 2 == 0) else ("module", "script"))[:(1 if tier == "quick" else 2)]:
+        prng = core.rng_for(seed, "c18-process", spelling, idx)
+        before = len(res.failures)
+        with cli.mode(spelling):
+            if idx in (0, 1):
+                incomplete_cases(res)
+            verify_cases(prng, res, k)
+            run_record_cases(prng, res, k + 1)
+            sign_match_cases(prng, res, k)
+        res.count("front_end_as_child_process_" + spelling, 1)
+        for f in res.failures[before:]:
+            f["case"]["front_end_run_as"] = spelling
     # status 0 stands for the library call the command line describes (harness/clicall.py): a usage error makes none
     from harness import clicall
     for _ in range(max(2, n // 2)):
